@@ -32,7 +32,7 @@ func forkRef(c forkh.Cfg) (outs map[string][]string, errs []string, names []stri
 	outs = map[string][]string{}
 	add := func(n string, v any) { outs[n] = append(outs[n], fmt.Sprint(v)) }
 	switch c.Stage {
-	case "map":
+	case "map", "map2":
 		names = []string{"got"}
 		for _, x := range c.Input {
 			if c.Mode != "pure" && forkh.Bit(c.Mask, x) {
@@ -89,7 +89,7 @@ func forkRef(c forkh.Cfg) (outs map[string][]string, errs []string, names []stri
 // C09 (and the C06 clauses for the fork stages).
 func c09Check(c forkh.Cfg) func(o *obs.Obs) string {
 	outs, errs, names := forkRef(c)
-	hasErr := c.Stage == "map" || c.Stage == "fmap"
+	hasErr := c.Stage == "map" || c.Stage == "fmap" || c.Stage == "map2"
 	userFn := c.Stage != "void" && c.Stage != "fold"
 	return func(o *obs.Obs) string {
 		tag := fmt.Sprintf("C09/%s/%s", c.Stage, c.Mode)
@@ -97,15 +97,28 @@ func c09Check(c forkh.Cfg) func(o *obs.Obs) string {
 			return tag + "/panic|" + p
 		}
 		cancelled := o.Has("cancel")
+		if c.Stage == "map2" {
+			var wantB []string
+			for i := range c.Input {
+				wantB = append(wantB, fmt.Sprint((33+i)*10))
+			}
+			sort.Strings(wantB)
+			if gb := sorted(o.Strs("gotb")); !obs.Equal(gb, wantB) || o.N("errb") != 0 || !o.Has("gotb-eof") || !o.Has("errb-eof") {
+				return fmt.Sprintf("%s/shared-f|a second fork.Map using the same F value over elements that never fail delivered %v, errors %v (closed: %v %v), want %v and no error", tag, gb, o.Strs("errb"), o.Has("gotb-eof"), o.Has("errb-eof"), wantB)
+			}
+		}
 		drained := c.Stop == -1 && (c.Stage != "partition" || c.Stop2 == -1) && c.ErrRd != "none"
-		complete := !cancelled && drained && c.Mode != "lift"
+		complete := !cancelled && drained && (c.Mode != "lift" || c.Stage == "foreach") // ForEach has no error channel: a failing visitor stops nothing
 		calls := map[string]int{}
 		for _, x := range o.Strs("call") {
 			calls[x]++
 		}
 		in := map[string]int{}
-		for _, x := range c.Input {
+		for i, x := range c.Input {
 			in[fmt.Sprint(x)]++
+			if c.Stage == "map2" {
+				in[fmt.Sprint(33+i)]++ // the elements of the second stage
+			}
 		}
 		if userFn {
 			for _, x := range sortedKeys(calls) {
@@ -198,8 +211,11 @@ func c09Scenarios(tier string) []e1lib.Scenario {
 			for _, n := range names {
 				done = append(done, n+"-eof")
 			}
-			if c.Stage == "map" || c.Stage == "fmap" {
+			if c.Stage == "map" || c.Stage == "fmap" || c.Stage == "map2" {
 				done = append(done, "err-eof")
+			}
+			if c.Stage == "map2" {
+				done = append(done, "gotb-eof", "errb-eof")
 			}
 		}
 		name := forkName(c)
@@ -296,6 +312,19 @@ func c09Scenarios(tier string) []e1lib.Scenario {
 							}
 						}
 					}
+				}
+			}
+		}
+	}
+	// a visitor that fails (ForEach still visits everything), and one F value shared by two stages
+	for _, s := range []pk{{1, 2}, {2, 2}, {2, 3}} {
+		for m := 1; m < 1<<s.k; m++ {
+			for _, mode := range []string{"lift", "try"} {
+				add(forkh.Cfg{Stage: "foreach", Par: s.par, Input: seq1(s.k), InCap: 0, Mode: mode, Mask: m << 1, Stop: -1, Stop2: -1}, -1)
+			}
+			if s.k == 2 {
+				for _, mode := range []string{"lift", "try"} {
+					add(forkh.Cfg{Stage: "map2", Par: s.par, Input: seq1(s.k), InCap: 0, Mode: mode, Mask: m << 1, Stop: -1, Stop2: -1, ErrRd: "reader"}, -1)
 				}
 			}
 		}
